@@ -3,7 +3,7 @@ C18 model — `Signal` / `SignalSlice` of `pymoto/core_objects.py` (lines 68-290
 
 The model follows the code path literally on an explicit heap of numpy-array objects:
 
-* a heap object is an ndarray that OWNS its buffer: dtype tag (`cplx`: int64 / complex128), shape, flat C-order
+* a heap object is an ndarray that OWNS its buffer (any rank, including MUTABLE rank-0 arrays of shape `[]`): dtype tag (`cplx`: int64 / complex128), shape, flat C-order
   data of Gaussian integers (`GI`; a real array has all imaginary parts 0);
 * a Python value (`PVal`) is `None`, an immutable Python scalar (int / complex), a whole heap array (`arr r`, identity = `r`)
   or a numpy VIEW into a heap array (`view r idx shape`: entry `k` of the view is entry `idx[k]` of the buffer of `r`);
@@ -233,7 +233,7 @@ def selIdx (shape : List Nat) : SliceSpec → Except Err (List Nat × List Nat)
 
 /-- for an index containing an integer array: the result shape, known before the array's entries are bounds-checked -/
 def advShape (shape : List Nat) : SliceSpec → Option (Except Err (List Nat))
-  | .intArr is => some (.ok (is.length :: shape.drop 1))
+  | .intArr is => some (if shape = [] then .error .IndexError else .ok (is.length :: shape.drop 1))   -- rank 0: too many indices
   | .mixed pre (some is) post =>
     some (match mixedParse shape pre is.length post with
       | .error e => .error e
@@ -297,7 +297,7 @@ inductive Src
 def PVal.src (h : Heap) : PVal → Option Src
   | .none => Option.none
   | .sc c x => some (.sc c x)
-  | .npsc c x => some (.sc c x)
+  | .npsc c x => some (.arr c [] [x])      -- a numpy scalar converts like a rank-0 array (unsafe cast on assignment)
   | .arr r => some (.arr (h.objs r).cplx (h.objs r).shape (h.objs r).data)
   | .view r idx shp => some (.arr (h.objs r).cplx shp (h.read r idx))
 
@@ -308,7 +308,9 @@ def getItem (h : Heap) (v : PVal) (sp : SliceSpec) : Except Err (Heap × PVal) :
   match v.asView h with
   | Option.none =>
     match v with
-    | .npsc _ _ => .error .IndexError     -- invalid index to scalar variable
+    | .npsc _ _ =>
+      if sp = .tuple [] ∨ sp = .mixed [] Option.none [] then .ok (h, v)   -- `np.int64(3)[()]` is the scalar itself
+      else .error .IndexError              -- invalid index to scalar variable
     | _ => .error .TypeError              -- 'NoneType' / 'int' object is not subscriptable
   | some (r, idx, shp) =>
     match selIdx shp sp with
@@ -329,7 +331,8 @@ def prepVal (h : Heap) (tc : Bool) (shp : List Nat) (v : PVal) : Except Err (Lis
     if c && !tc then .error .TypeError               -- int(complex)
     else .ok (List.replicate (prod shp) x)
   | some (.arr c vshape vals) =>
-    if shp = [] then .error .ValueError              -- setting an array element with a sequence
+    if shp = [] ∧ vshape ≠ [] then                    -- one element := an array of rank ≥ 1 (a rank-0 array is fine):
+      .error (if tc then .TypeError else .ValueError)  -- `complex(seq)` raises TypeError, `int(seq)` ValueError
     else match setBcast shp vshape with
     | Option.none => .error .ValueError              -- could not broadcast input array
     | some m =>
@@ -384,15 +387,19 @@ def iadd (h : Heap) (tmp ds : PVal) : Except Err (Heap × IaddRes) :=
     | .sc c x =>
       match d with
       | .sc c' y => .ok (h, .newVal (.sc (c || c') (x + y)))
-      | .arr c' shp vals =>                               -- scalar + ndarray → new ndarray
-        let (h', r') := h.alloc ⟨c || c', shp, vals.map fun v => x + v⟩
-        .ok (h', .newVal (.arr r'))
+      | .arr c' shp vals =>                               -- scalar + ndarray → new ndarray (rank 0: a numpy scalar)
+        if shp = [] then .ok (h, .newVal (.npsc (c || c') (x + vals.getD 0 0)))
+        else
+          let (h', r') := h.alloc ⟨c || c', shp, vals.map fun v => x + v⟩
+          .ok (h', .newVal (.arr r'))
     | .npsc c x =>
       match d with
       | .sc c' y => .ok (h, .newVal (.npsc (c || c') (x + y)))
       | .arr c' shp vals =>
-        let (h', r') := h.alloc ⟨c || c', shp, vals.map fun v => x + v⟩
-        .ok (h', .newVal (.arr r'))
+        if shp = [] then .ok (h, .newVal (.npsc (c || c') (x + vals.getD 0 0)))
+        else
+          let (h', r') := h.alloc ⟨c || c', shp, vals.map fun v => x + v⟩
+          .ok (h', .newVal (.arr r'))
     | t =>
       match t.asView h with
       | Option.none => .error .TypeError
@@ -420,8 +427,10 @@ def mulZero (h : Heap) (v : PVal) : Except Err (Heap × PVal) :=
     match t.asView h with
     | Option.none => .error .TypeError
     | some (r, idx, shp) =>
-      let (h', r') := h.alloc ⟨(h.objs r).cplx, shp, List.replicate idx.length 0⟩
-      .ok (h', .arr r')
+      if shp = [] then .ok (h, .npsc (h.objs r).cplx 0)     -- ufuncs on rank-0 arrays return numpy scalars
+      else
+        let (h', r') := h.alloc ⟨(h.objs r).cplx, shp, List.replicate idx.length 0⟩
+        .ok (h', .arr r')
 
 /-- `copy.deepcopy(v)` -/
 def deepcopy (h : Heap) (v : PVal) : Heap × PVal :=
